@@ -173,7 +173,7 @@ def check_case(case, rec=None):
     return None
 
 
-N = {"quick": 450, "thorough": 3500}
+N = {"quick": 450, "thorough": 10000}
 
 
 def shard_plan(tier):
